@@ -19,7 +19,7 @@ class C09(Spec):
                   "<= v for separator-free key sets without empty values (partial), Trash keeps the newest version and every "
                   "version above the cut for prefix-free key sets (partial); the full statements are refuted on concrete "
                   "witnesses that are replayed on the real code (corpus/C09). The model is tied to common/db (MVCCHelper over "
-                  "goleveldb and memdb) and executor.StateDB by an exact differential run over generated version chains with "
+                  "goleveldb and memdb, MVCCIter with its 'last' records) and executor.StateDB by an exact differential run over generated version chains with "
                   "adversarial key shapes, reads at every version, removals from the top and collections at every cut; the "
                   "property predicates are evaluated on the implementation against an in-harness reference.")
     level_note = ("Meta records (hash<->version, key lists) are modelled as maps (32-byte hashes); goleveldb/memdb behave as an "
